@@ -32,6 +32,14 @@ import priority
 
 from . import clients as C
 
+
+def b2s(b: bytes) -> str:
+    return bytes(b).decode("latin1")
+
+
+def s2b(s: str) -> bytes:
+    return s.encode("latin1")
+
 SENDTASK = "sendtask"
 READER = "reader"
 
@@ -177,6 +185,7 @@ class Ledger:
                     self.order.append(("end", sid, 0))
             elif typ == 1:     # HEADERS
                 self.headers[sid] = self.headers.get(sid, 0) + 1
+                self.order.append(("headers", sid, flags & 0x1))
                 if flags & 0x1:
                     self.end_stream[sid] = self.end_stream.get(sid, 0) + 1
                     self.order.append(("end", sid, 0))
@@ -244,6 +253,8 @@ class H2Drive:
         self.in_closed: Dict[str, int] = {}
         self.ghost_at: Optional[int] = None
         self.client_rst: List[int] = []
+        self.heads: List[dict] = []               # stream events that carry no model op of `h2send.run`: Response / Trailers, with the
+                                                  # position (op index) at which `stream_send` was called (C02: `h2wire.run`)
 
     # ---------------- naming -----------------
     @staticmethod
@@ -330,7 +341,7 @@ class H2Drive:
         HC = h2.connection.H2Connection
         SB = hh2.StreamBuffer
         self._orig = {"pt": {n: getattr(PT, n) for n in ("__next__", "block", "unblock", "insert_stream", "remove_stream", "reprioritize")},
-                      "hc": {n: getattr(HC, n) for n in ("send_data", "end_stream", "reset_stream", "local_flow_control_window")},
+                      "hc": {n: getattr(HC, n) for n in ("send_data", "end_stream", "reset_stream", "local_flow_control_window", "send_headers")},
                       "sb": {n: getattr(SB, n) for n in ("__init__", "push", "pop", "drain", "close", "set_complete")}}
         o = self._orig
 
@@ -387,8 +398,8 @@ class H2Drive:
                     raise
                 d.rec("h2." + name, a[0] if a else None, len(a[1]) if name == "send_data" else None)
                 me = d.me()
-                if name == "end_stream" and me == SENDTASK:
-                    d.pick_ended = True
+                if (name == "end_stream" or (name == "send_headers" and k.get("end_stream"))) and me == SENDTASK:
+                    d.pick_ended = True          # `_end_stream`: the empty DATA frame, or the trailers HEADERS frame, with END_STREAM
                 if name == "reset_stream" and me.startswith("app-"):
                     d.pusher[a[0] if a else k.get("stream_id")] = "inAbandon"
                 return r
@@ -428,7 +439,7 @@ class H2Drive:
         PT.__next__ = pt_next
         for n in ("block", "unblock", "insert_stream", "remove_stream", "reprioritize"):
             setattr(PT, n, pt_simple(n))
-        for n in ("send_data", "end_stream", "reset_stream", "local_flow_control_window"):
+        for n in ("send_data", "end_stream", "reset_stream", "local_flow_control_window", "send_headers"):
             setattr(HC, n, hc_simple(n))
         SB.__init__, SB.push, SB.pop, SB.drain, SB.close, SB.set_complete = sb_init, sb_push, sb_pop, sb_drain, sb_close, sb_set_complete
         self._classes = (PT, HC, SB)
@@ -547,7 +558,12 @@ class H2Drive:
                 orig_send = stream.send
 
                 async def marked(ev):
-                    from hypercorn.protocol.events import Body, Data, EndBody, EndData, StreamClosed
+                    from hypercorn.protocol.events import Body, Data, EndBody, EndData, InformationalResponse, Response, StreamClosed, Trailers
+                    if isinstance(ev, (Response, InformationalResponse)):
+                        d.heads.append({"at": len(d.ops), "op": "head", "i": ev.stream_id, "status": ev.status_code,
+                                        "headers": [[b2s(n), b2s(v)] for n, v in ev.headers]})
+                    elif isinstance(ev, Trailers):
+                        d.heads.append({"at": len(d.ops), "op": "trailers", "i": ev.stream_id, "headers": [[b2s(n), b2s(v)] for n, v in ev.headers]})
                     if isinstance(ev, (Body, Data)):
                         d.emit({"op": "push", "i": ev.stream_id, "n": len(ev.data)})
                         st["written"] += len(ev.data)
@@ -581,6 +597,10 @@ class H2Drive:
                         d.task_pc = "crashed"
                         d.rec("sendtaskCrash", type(e).__name__, str(e)[:80])
                         return
+                    # leaving the loop and the `finally` that closes the buffers happen in the same step as the task's last op:
+                    # the state in between is not observable
+                    if d.ops and not d.runaway:
+                        d.ops[-1] = {**d.ops[-1], "_mid": True}
                     d.emit({"op": "exit"})
                     d.task_pc = "exited"
 
@@ -607,7 +627,13 @@ class H2Drive:
                             await asyncio.sleep(0)
                         continue
                     if "start" in step:
-                        msg = {"type": "http.response.start", "status": step["start"], "headers": [(b"x-s", str(sid).encode())]}
+                        msg = {"type": "http.response.start", "status": step["start"],
+                               "headers": [(b"x-s", str(sid).encode())] + [(s2b(n), s2b(v)) for n, v in step.get("headers", [])]}
+                        if step.get("trailers"):
+                            msg["trailers"] = True
+                    elif "trailers" in step:
+                        msg = {"type": "http.response.trailers", "headers": [(s2b(n), s2b(v)) for n, v in step["trailers"]],
+                               "more_trailers": bool(step.get("more", False))}
                     elif "body" in step:
                         payload = bytes([(sid * 7 + st["accepted"] + k) & 0xFF for k in range(min(step["body"], 64))])
                         payload = (payload * (step["body"] // max(1, len(payload)) + 1))[: step["body"]] if step["body"] else b""
@@ -798,7 +824,7 @@ class H2Drive:
                     break
                 if k == "open":
                     sid = act["sid"]
-                    hdrs = C.h2_headers(act.get("method", "GET"), f"/s{sid}")
+                    hdrs = C.h2_headers(act.get("method", "GET"), f"/s{sid}", extra=[(b"te", b"trailers")] if act.get("te") else None)
                     kw = {}
                     if act.get("prio"):
                         pr = act["prio"]
@@ -951,13 +977,13 @@ class H2Drive:
         streams = {}
         for sid, st in cl.streams.items():
             streams[str(sid)] = {"data": bytes(st["data"]), "frames": list(st["frames"]), "ended": st["ended"], "reset": st["reset"],
-                                 "headers": st["headers"] is not None}
+                                 "headers": st["headers"] is not None, "head": st["headers"], "trailers": st["trailers"]}
         apps = {}
         for sid, st in self.app_state.items():
             apps[str(sid)] = {"sends": [dict(s) for s in st["sends"]], "accepted": st["accepted"], "written": st["written"], "puts": list(st["puts"]), "done": st["done"]}
         if self.runaway:                 # keep the evidence small: the run is reported as `spinning`, not replayed through the model
             self.ops, self.snaps = self.ops[-40:], self.snaps[-41:]
-        return {"ops": self.ops, "snaps": self.snaps, "ids": list(self.ids), "quiescent": quiescent, "client": {"streams": streams, "error": cl.error, "goaway": cl.goaway},
+        return {"ops": self.ops, "snaps": self.snaps, "ids": list(self.ids), "heads": list(self.heads), "quiescent": quiescent, "client": {"streams": streams, "error": cl.error, "goaway": cl.goaway},
                 "ledger": {"violations": self.ledger.violations, "payload": {k: bytes(v) for k, v in self.ledger.payload.items()}, "data": dict(self.ledger.data), "end": dict(self.ledger.end_stream), "rst": dict(self.ledger.rst),
                            "headers": dict(self.ledger.headers), "data_after_end": list(self.ledger.data_after_end), "frames": {k: list(v) for k, v in self.ledger.frames.items()},
                            "order": list(self.ledger.order)},
